@@ -28,6 +28,9 @@ JWE_REC = ["RSA-OAEP", "A128KW", "A256KW", "dir", "ECDH-ES", "ECDH-ES+A128KW", "
 JWS_SUPPORTED = scen.JWS_ALL + ["none"]
 NEAR = ["hs256", "HS256 ", "", "FOO", "A128gcm", "dir ", "Dir", "def"]
 NONSTR = [None, 1, True, [], {}]
+# names that LOOK like registered ones: full-width letters, a typographic dash, a no-break space in front (none is a registered name)
+LOOKALIKE = {"jws": ["\uff28\uff33\uff12\uff15\uff16", "HS256\u200b"], "alg": ["\uff44\uff49\uff52", "\u00a0dir", "A128KW\u00a0"],
+             "enc": ["\uff21\uff11\uff12\uff18\uff27\uff23\uff2d", "A128CBC\u2013HS256"], "zip": ["\uff24\uff25\uff26"]}
 KIND_FOR = {"HS256": "oct32", "HS384": "oct48", "HS512": "oct64", "ES256": "P-256", "ES384": "P-384", "ES512": "P-521", "ES256K": "secp256k1", "EdDSA": "Ed25519"}
 LFORMS = ["absent", "empty", "singleton", "all-but-one", "recommended", "all", "all+unknown", "only-unknown", "only-other-family"]
 
@@ -78,7 +81,7 @@ def is_unsupported_error(exc):
 
 def h_jws(ctx):
     from joserfc import jws, jwt, rfc7797
-    name = ctx.choose("alg", JWS_SUPPORTED + NEAR[:4] + NONSTR)
+    name = ctx.choose("alg", JWS_SUPPORTED + NEAR[:4] + LOOKALIKE["jws"] + NONSTR)
     form = ctx.choose("allow_list", LFORMS)
     how = ctx.choose("given_as", ["algorithms", "algorithms-as-tuple", "algorithms-as-frozenset", "registry", "registry+empty-algorithms", "plain-jws-registry", "plain-jws-registry-nonstrict"])
     op = ctx.choose("operation", ["sign", "verify"])
@@ -180,11 +183,11 @@ def h_jwe(ctx):
     scen.register_drafts()
     dim = ctx.choose("dimension", ["alg", "enc", "zip"])
     if dim == "alg":
-        name = ctx.choose("name", JWE_ALG_SUP + NEAR[2:6] + NONSTR)
+        name = ctx.choose("name", JWE_ALG_SUP + NEAR[2:6] + LOOKALIKE["alg"] + NONSTR)
     elif dim == "enc":
-        name = ctx.choose("name", JWE_ENC_SUP + NEAR[2:5] + ["A128KW", "HS256"] + NONSTR)
+        name = ctx.choose("name", JWE_ENC_SUP + NEAR[2:5] + ["A128KW", "HS256"] + LOOKALIKE["enc"] + NONSTR)
     else:
-        name = ctx.choose("name", ["DEF", "def", "GZIP", "", "A128GCM"] + NONSTR)
+        name = ctx.choose("name", ["DEF", "def", "GZIP", "", "A128GCM"] + LOOKALIKE["zip"] + NONSTR)
     form = ctx.choose("allow_list", LFORMS)
     how = ctx.choose("given_as", ["algorithms", "algorithms-as-tuple", "registry", "registry+empty-algorithms", "algorithms+default-JWERegistry"])
     op = ctx.choose("operation", ["encrypt", "decrypt"])
